@@ -90,6 +90,10 @@ def run(prog, world, sem, rep):
     rep.ob("C08.c", "roll-over records its time", ok, det, where(ro_body))
     ex = entry(prog, "hub")
     adt_path, adt = msg_enum(prog, ex)
+    # the +1 may be computed by the roll-over itself or by a function / method it calls
+    ro_paths = {ro_path}
+    for rv0 in [v for v in vs if v.body.path == ro_path]:
+        ro_paths |= {x.body.path for x in subtree(vs, rv0)}
     for vn in [x["name"] for x in adt["variants"]]:
         vv = vs if vn == "Receive" else explore(sem, ex, variant_env(prog, ex, vn))
         for (v, bb, kind, cell, key, val, e) in storage_effects(sem, vv):
@@ -106,7 +110,7 @@ def run(prog, world, sem, rep):
                 if sem.label(a) == stored(BATCH, "id"):
                     continue
                 if a.op == "bin" and a.info == "Add" and any(x.op == "const" and x.info[:2] == ("scalar", 1) for x in a.args) and \
-                        any(sem.label(x) == stored(BATCH, "id") for x in a.args) and a.site and a.site[0] == ro_path:
+                        any(sem.label(x) == stored(BATCH, "id") for x in a.args) and a.site and a.site[0] in ro_paths:
                     continue
                 bad.append(show(a, 3))
             rep.ob("C08.c", "hub::%s CURRENT_BATCH.id in %s" % (vn, v.body.path), not bad,
@@ -229,16 +233,20 @@ def run(prog, world, sem, rep):
     n_lp = 0
     for (v, bb, kind, val) in sw:
         wv = written_value_in(sem, wvs, v, kind, STATE, val)
-        lp = world.ident(sem.field_of(wv, "last_processed_batch"), expand_ws=False) if wv is not None else None
+        # the value may reach the save through the return value of the releasing function: workspace calls are expanded, and an
+        # alternative is accepted by where it was computed (the releasing loop), not by where it is saved
+        lp = world.ident(sem.field_of(wv, "last_processed_batch")) if wv is not None else None
+        kalts = (kid.args if kid.op == "phi" else (kid,)) + (kid,)
         for a in ((lp.args if lp.op == "phi" else (lp,)) if lp is not None else (None,)):
             n_lp += 1
+            in_loop_fn = v.body.path == lv.body.path or (a is not None and a.site is not None and a.site[0] == lv.body.path)
             if a is None:
                 bad.append("unknown")
             elif sem.label(a) == stored(STATE, "last_processed_batch"):
                 continue
-            elif v.body.path == lv.body.path and world.ident(a, expand_ws=False) in ((kid.args if kid.op == "phi" else (kid,)) + (kid,)):
+            elif in_loop_fn and (world.ident(a, expand_ws=False) in kalts or a in kalts):
                 continue
-            elif v.body.path == lv.body.path and a.op == "bin" and a.info == "Add":
+            elif in_loop_fn and a.op == "bin" and a.info == "Add":
                 continue  # the iterator value (key alternatives are sums from last_processed_batch + 1)
             else:
                 bad.append(show(a, 3))
